@@ -284,6 +284,18 @@ def _lazy_slots(ctx) -> Dict[str, str]:
                         ]
                         if stores:
                             out[slot] = f.fq
+            # guard-return form:  `cached = self._slot; if cached is not None [and ...]: return ...` followed by a store
+            from ..astutil import inline, single_defs
+            sd = single_defs(f.node)
+            for n in walk_local(f.node):
+                if isinstance(n, ast.If) and n.body and isinstance(n.body[-1], ast.Return):
+                    t = inline(n.test, sd)
+                    first = t.values[0] if isinstance(t, ast.BoolOp) and isinstance(t.op, ast.And) else t
+                    if isinstance(first, ast.Compare) and len(first.ops) == 1 and isinstance(first.ops[0], ast.IsNot) and is_attr_of(first.left, "self") and _is_none(first.comparators[0]):
+                        slot = first.left.attr
+                        later = [x for x in walk_local(f.node) if isinstance(x, ast.Assign) and any(is_attr_of(tt, "self", slot) for tt in x.targets) and x.lineno > n.lineno]
+                        if later:
+                            out.setdefault(slot, f.fq)
     return out
 
 
@@ -979,6 +991,24 @@ def r6_5(ctx):
             scan(st.body, new_outer)
 
     scan(mk.node.body, [])
+    # comprehension form:  [_style_map[bit] for bit in range(a, b) if attributes & (1 << bit)]
+    for lc in walk_local(mk.node):
+        if isinstance(lc, (ast.ListComp, ast.GeneratorExp)) and len(lc.generators) == 1 and isinstance(lc.elt, ast.Subscript) and "_style_map" in norm(lc.elt.value):
+            ge = lc.generators[0]
+            it = ge.iter
+            if isinstance(it, ast.Call) and isinstance(it.func, ast.Name) and it.func.id == "range" and isinstance(ge.target, ast.Name) and len(ge.ifs) == 1 and isinstance(ge.ifs[0], ast.BinOp) and isinstance(ge.ifs[0].op, ast.BitAnd):
+                rng = [const_int(a) for a in it.args]
+                if None in rng:
+                    raise AnalysisError(f"_make_ansi_codes: non-constant range {norm(it)}")
+                for bit in range(*rng):
+                    env = {ge.target.id: bit}
+                    key = const_int(lc.elt.slice, env)
+                    mask = const_int(ge.ifs[0].right, env)
+                    if key is None:
+                        raise AnalysisError(f"_make_ansi_codes: comprehension element index not evaluable: {norm(lc.elt)}")
+                    fake = ast.If(test=ge.ifs[0], body=[], orelse=[])
+                    fake.lineno = lc.lineno
+                    record(key, mask, [], fake)
     missing = sorted(set(bits.values()) - set(covered))
     dup = sorted(k for k, c in covered.items() if c > 1)
     ctx.check(not missing and not dup, mk.fq, "attribute bit coverage", mk.where, f"_make_ansi_codes emits each of the {len(bits)} attribute bits exactly once",
